@@ -54,8 +54,8 @@ func (s *Service) findPruneableHeaders(
 			"to", estimatedCutoffHeight, "error", err)
 		return nil, err
 	}
-	// ensures genesis block gets pruned
-	if lastPruned.Height() == 1 {
+	// ensures genesis block gets pruned, as well as a header store tail that got ahead of the checkpoint
+	if lastPruned.Height() == 1 || lastPruned.Height() > s.checkpoint.LastPrunedHeight {
 		headers = append([]*header.ExtendedHeader{lastPruned}, headers...)
 	}
 
